@@ -98,7 +98,10 @@ func runG(c xcase, srcKind, dstKind string, xf xform, par int, seed uint32) (str
 	if g.Inplace {
 		src = dstSub
 	} else {
-		src, _ = img.New(srcKind, srcR, int(seed)%2, 0, 0, int(seed)%2, seed, true)
+		// the source as a whole image, a sub-image with margins all round, a full-width band with
+		// parent rows below / above (stride = width, Pix longer than the rectangle), a column
+		sm := [][4]int{{0, 0, 0, 0}, {1, 0, 0, 1}, {0, 0, 0, 2}, {0, 1, 0, 0}, {1, 1, 1, 1}, {0, 2, 0, 3}, {2, 0, 1, 0}}[int(seed)%7]
+		src, _ = img.New(srcKind, srcR, sm[0], sm[1], sm[2], sm[3], seed, true)
 	}
 	if g.Inplace && seed%2 == 0 {
 		// in place on a ramp: every pixel is the transform of its left neighbour's ORIGINAL
